@@ -214,6 +214,40 @@ def run(ctx):
     if auths and b'"LOGIN"' in auths[0]:
         viol.append({"history": "plaintext injection behind STARTTLS OK", "what": "mechanism chosen from capabilities received BEFORE the handshake: %r" % auths[0][:40]})
 
+    # 3b. a server that turns the client away in its greeting — BYE, bare, with a text, or with a response code naming another
+    #     server (RFC 5804 section 1.3, REFERRAL) — and that would answer normally if the client came back (on its own or by
+    #     following the referral): whatever the client then does, the requested STARTTLS → handshake → AUTHENTICATE order holds
+    class TurnsAway(refserver.RefServer):
+        first = None
+
+        def greeting(self):
+            if self.first is not None:
+                g, self.first = self.first, None
+                return g
+            return refserver.RefServer.greeting(self)
+    BYES = [b'BYE\r\n', b'BYE "try later"\r\n', b'BYE (REFERRAL "sieve://other.example.org") "go there"\r\n',
+            b'BYE (REFERRAL "sieve://other.example.org:4190")\r\n', b'BYE (REFERRAL "sieve://user@10.0.0.2:2000") {5}\r\nmoved\r\n',
+            b'bye (referral "SIEVE://other.example.org")\r\n', b'BYE (REFERRAL "sieve://[::1]:4190") "v6"\r\n',
+            b'"IMPLEMENTATION" "x"\r\n"SASL" "PLAIN"\r\n"STARTTLS"\r\nBYE (REFERRAL "sieve://other.example.org") "after the capabilities"\r\n']
+    for bye in BYES:
+        for want_tls in (True, False):
+            for mech in (None, "PLAIN"):
+                srv = TurnsAway(r, starttls=True, sasl=b"PLAIN", post_tls_sasl=b"PLAIN")
+                srv.first = bye
+                s = msref.Session()
+                out = s.connect(b"", [], "user", "pw", starttls=want_tls, mech=mech, server=srv)
+                record(["c op=new", msref.req_connect(bye, [], "user", "pw", starttls=want_tls, mech=mech, later=list(s.wire.segments))], ["ok", out])
+                evals += 1
+                nontriv += 1
+                probs = check_writes(s.wire.writes, want_tls, srv.authed)
+                if "res=b1" in out and not srv.authed:
+                    probs.append("connect returned True but no AUTHENTICATE exchange ended with OK")
+                if "auth=b1" in out and not srv.authed:
+                    probs.append("the client is marked authenticated but no AUTHENTICATE exchange ended with OK")
+                for p_ in probs:
+                    viol.append({"history": "greeting %r, then a normal server; connect(starttls=%s, authmech=%r)" % (bye.decode("latin-1"), want_tls, mech),
+                                 "what": p_, "writes": [("tls" if t else "plain", b[:40].decode("latin-1")) for t, b in s.wire.writes]})
+
     # 4. random sessions: the ordering oracle on every write log
     for i in range(60 if ctx.tier == "quick" else 600):
         steps, srv, s = corr_client.run_session(r, r.randint(1, 8), {"version": r.random() < 0.5}, allow_faults=True)
